@@ -310,7 +310,8 @@ fn gen_stream_plain(r: &mut Rng, tier: Tier, small: bool) -> (Vec<u8>, usize) {
         let rec = tls::client_hello(r, &spec);
         let total = rec.len();
         let mut s = rec;
-        s.extend_from_slice(&tls::trailing(r));
+        // (a second hello only behind a first one that a TLS stack accepts: records above 2^14 are not)
+        s.extend_from_slice(&tls::trailing_opt(r, total <= 16000));
         (s, total)
     } else if kind < 9 {
         // a handshake record that is not a ClientHello
